@@ -640,15 +640,9 @@ class Performance(object):
         self.performedparts[index] = pp
 
     def __iter__(self) -> Iterator[PerformedPart]:
-        self.iter_idx = 0
-        return self
-
-    def __next__(self) -> PerformedPart:
-        if self.iter_idx == len(self.performedparts):
-            raise StopIteration
-        res = self[self.iter_idx]
-        self.iter_idx += 1
-        return res
+        # a fresh iterator per call: nested or interleaved iterations over the
+        # same performance must not share a cursor
+        return iter(self.performedparts)
 
     def __len__(self) -> int:
         """
